@@ -135,6 +135,10 @@ def build_plan(choice: Choice, tier: str, family: str):
         else:
             n = ITEM_CHOICES[d(len(ITEM_CHOICES), "items")] if not thorough else d(41, "items")
         n = min(n, 40 if thorough else 16)
+        if c == 0 and d(24, "items.many") == 23:
+            # a long call with single-item chunks: more chunks in flight than any small constant bound
+            n = [65, 130, 260][d(3, "items.many.n")]
+            call["chunk"] = 1
         call["n"] = n
         lazy = d(3, "lazy")
         call["lazy"] = lazy != 0
@@ -832,8 +836,8 @@ RULE = ("one run = one seeded plan (pool class, workers, chunk size, queue bound
         "counted over the non-trivial runs of this batch")
 
 SPECS = {
-    "C01": PoolSpec("C01", "single", RULE, 12000, 400000),
-    "C02": PoolSpec("C02", "single", RULE, 12000, 400000),
-    "C03": PoolSpec("C03", "multi", RULE, 8000, 300000),
-    "C04": PoolSpec("C04", "lifecycle", RULE, 8000, 300000),
+    "C01": PoolSpec("C01", "single", RULE, 10000, 400000),
+    "C02": PoolSpec("C02", "single", RULE, 10000, 400000),
+    "C03": PoolSpec("C03", "multi", RULE, 6000, 300000),
+    "C04": PoolSpec("C04", "lifecycle", RULE, 6000, 300000),
 }
